@@ -188,6 +188,10 @@ add("c3f_fused_reader", "input",
     desc="FusedReader<Src>: passes the inner bytes through, drops the inner reader at the first Ok(0) on a non-empty buffer, Ok(0) forever after, zero-length reads do not drop",
     bounds="data <= 3 B, 4 reads with buffers 0..2", functions=C_FUN[7:8], covers=["C3f inner reader dropped at EOF"],
     props=["C09", "C02", "C04"], timeout=600, mem_gb=8, assumptions=C_SRC[:1])
+add("c3f_fused_reader_fault", "input",
+    desc="FusedReader<Src> over a source that starts failing at a symbolic offset: the error is passed on and does not fuse the reader - a failing source never becomes a clean end of input on a later read; before the fault the bytes pass through in order",
+    bounds="data <= 3 B, fault offset 0..len, 4 reads with buffers 1..2", functions=C_FUN[7:8], covers=["C3f fault after two bytes"],
+    props=["C12", "C09", "C02"], timeout=600, mem_gb=8, assumptions=C_SRC[:1])
 add("c3_handle_programs", "input",
     desc="the real Handle over Box<dyn Read>: up to 2 borrows (prefix request of any size, or 2 partial reads), then Input::from or Cow::try_from: Ref::Slice/Input::Slice only for a fully captured source and equal to the data; the owned reader replays the complete unaltered stream",
     bounds="data <= 3 B, every read schedule, <= 2 borrows", functions=C_FUN, covers=["C3 input became a slice", "C3 chained reader after look-ahead"],
